@@ -165,7 +165,11 @@ func (e *Eval) evalBinaryExpr(b *ast.BinaryExpr, env *Env) (Obj, error) {
 	case ast.ItemAsterisk:
 		return mul(l, r), nil
 	case ast.ItemForwardSlash:
-		return div(l, r), nil
+		res, err := div(l, r)
+		if err != nil {
+			return nil, err
+		}
+		return res, nil
 	case ast.OpGreaterThan:
 		return gt(l, r), nil
 	case ast.OpGreaterThanOrEqual:
